@@ -41,7 +41,7 @@ ALPHA = [['W', 0, 'ALL'], ['W', 1, 'ALL'], ['W', 0, 'MW'], ['G', 'Rx180', [0]], 
 def jobs(tier, seed):
     rng = random.Random(seed + 11)
     n, steps, depth, reps = (900, 3, 2, (1, 2)) if tier == 'quick' else (5000, 4, 3, (1, 2, 3))
-    out = []
+    out = [{'deep': True, 'blocks': 12, 'pattern': 25}] + ([{'deep': True, 'blocks': 30, 'pattern': 25}] if tier != 'quick' else [])
     for _ in range(n):
         p = gen.random_program(rng, ALPHA, steps, depth, p_sub=0.4, p_rel=0.0, reps=reps, sub_rel=False)
         if gen.count_leaves(p) <= (7 if tier == 'quick' else 9):
@@ -70,7 +70,34 @@ def has_composite(comp):
     return any(isinstance(k, CircuitCompositeOperation) for k in cm.composite_children(comp))
 
 
+def run_deep(ctx, params):
+    """One ground witness far inside the library's traversal limit: a nested program whose blocks are shallow but whose flattened graph is
+    about 1 200 layers deep (12 blocks x 25 x [H, CZ, Rx90, Rx180, Barrier]); default durations, nothing symbolic."""
+    import collections as _c
+    from qce_circuit.language.declarative_circuit import DeclarativeCircuit
+    from qce_circuit.structure.circuit_operations import Rx180, Rx90, Hadamard, CPhase, Barrier
+    top = DeclarativeCircuit()
+    for b in range(params['blocks']):
+        block = DeclarativeCircuit()
+        for i in range(params['pattern']):
+            block.add(Hadamard(0)); block.add(CPhase(0, 1)); block.add(Rx90(1)); block.add(Rx180(0)); block.add(Barrier([0, 1]))
+        top.add(block)
+    before = [lib.sig(o) for o in top.operations]
+    flat = top.flatten()
+    ops1 = flat.operations
+    after = [lib.sig(o) for o in ops1]
+    info = {'spec': 'deep', 'n_before': len(before), 'n_after': len(after), 'blocks': params['blocks'], 'layers_about': 4 * params['pattern'] * params['blocks']}
+    ctx.observe('n', len(after))
+    ctx.check('C11.readable', True)
+    ctx.check('C11.multiset', _c.Counter(before) == _c.Counter(after), info)
+    ctx.check('C11.no_composite', len(flat.composite_operations) == 0, info)
+    ops2 = flat.flatten().operations
+    ctx.check('C11.idempotent.listing', len(ops2) == len(ops1) and all(a is b for a, b in zip(ops1, ops2)), info)
+
+
 def run(ctx, params):
+    if params.get('deep'):
+        return run_deep(ctx, params)
     from qce_circuit.addon_stim.factory_manager import to_stim
     g = cm.Globals(ctx)
     with g.override():
